@@ -24,7 +24,7 @@ META = {
     "stubs": ["CphotAng helpers -> deterministic uninterpreted functions (see C08)", "atm.us_std_atm_altitude_from_pressure -> uninterpreted function alt_of_p", "astropy.io.fits.open -> recorder of the file name returning a small symbolic map"],
     "assumptions": ["REAL mode", "altitude steps zs increase along the track (valid_arrays)", "a map cell 'contains' a location when the chosen grid node lies within one grid spacing of it in both coordinates (lenient reference: any of the bracketing nodes is accepted)"],
 }
-LEDGER = {"quick": 160, "thorough": 250}
+LEDGER = {"quick": 180, "thorough": 250}
 
 
 def cloud_run(K, regime):
@@ -256,7 +256,83 @@ def replay(v):
             return {"reproduced": True, "key": "pressure-map lookup does not use the cell containing (degrees(lat), degrees(long))",
                     "detail": f"lat={lat} rad, long={lon} rad: lookup gave {got} km, bracketing map nodes give {cands}"}
         return {"reproduced": False, "key": None, "detail": "real lookup returns a bracketing node's altitude at the model location"}
+    if job.startswith("CphotAng.run cloud"):
+        return _replay_cloud_regimes()
+    if job.startswith("pressure-map file for months"):
+        import warnings
+        from importlib.resources import as_file, files
+
+        from astropy.io import fits
+
+        from nuspacesim.config import Simulation
+        from nuspacesim.simulation.atmosphere.clouds import extract_fits_cloud_pressure_map_v0
+
+        for rnd in (1, 2):
+            for month in range(1, 13):
+                with warnings.catch_warnings():
+                    warnings.simplefilter("ignore")
+                    got = np.array(extract_fits_cloud_pressure_map_v0(Simulation.PressureMapCloud(month=month)))
+                    with as_file(files("nuspacesim.data.cloud_maps") / f"nss_map_CloudTopPressure_{month:02d}.v0.fits") as fpath:
+                        with fits.open(fpath) as h:
+                            want = np.array(h[0].data)
+                if got.shape != want.shape or not np.array_equal(got, want, equal_nan=True):
+                    return {"reproduced": True, "key": "pressure map of a month is not that month's shipped file",
+                            "detail": f"pass {rnd}, month {month}: extract_fits_cloud_pressure_map_v0 returned a map that differs from nss_map_CloudTopPressure_{month:02d}.v0.fits (months requested in order 1..12 in one process)"}
+        return {"reproduced": False, "key": None, "detail": "all 12 months, two passes: the shipped file's data"}
     return {"reproduced": False, "key": None, "detail": "structural / skeleton claim (no numeric replay)"}
+
+
+def _replay_cloud_regimes():
+    """The three regimes on the real float32 kernel, for a few showers; the reference for 'in between' is the
+    same real object with the yield of the segments strictly below the cloud top zeroed and no cloud model."""
+    import warnings
+
+    import numpy as np
+
+    from nuspacesim.simulation.eas_optical.cphotang import CphotAng
+
+    warnings.simplefilter("ignore")
+    for b, alt, E in ((0.2, 2.0, 1.0), (0.05, 0.5, 3.0), (0.5, 6.0, 0.3), (0.1, 12.0, 1.0)):
+        o = CphotAng(525.0)
+        cap = {}
+        va = o.valid_arrays
+
+        def rec(*a, _va=va):
+            r = _va(*a)
+            cap["zs"] = np.array(r[0])
+            return r
+
+        o.valid_arrays = rec
+        free = o.run(b, alt, E, 0.3, 0.4, None)
+        zs = cap["zs"]
+        if len(zs) < 4:
+            continue
+        at = lambda h: o.run(b, alt, E, 0.3, 0.4, lambda la, lo: h)  # noqa
+        below = at(float(zs[0]) - 1e-3)
+        if not (np.array_equal(below[0], free[0]) and np.array_equal(below[1], free[1])):
+            return {"reproduced": True, "key": "cloud top below the first segment changes the result", "detail": f"beta={b}, altDec={alt}: cloud-free {free}, cloud at {float(zs[0]) - 1e-3} km gives {below}"}
+        for h in (0.5 * (float(zs[-2]) + float(zs[-1])), float(zs[-1]) + 1.0):
+            r = at(h)
+            if not (r[0] == 0 and r[1] == 0):
+                return {"reproduced": True, "key": "cloud top above the penultimate segment does not give exactly zero",
+                        "detail": f"beta={b}, altDec={alt}: segments end at ... {zs[-2]}, {zs[-1]} km; cloud top {h} km gives {r} instead of (0, 0)"}
+        for k in (len(zs) // 3, len(zs) // 2, len(zs) - 3):
+            h = 0.5 * (float(zs[k]) + float(zs[k + 1]))
+            got = at(h)
+            sy = o.sphoton_yeild
+
+            def cut(*a, _sy=sy, _h=h):
+                y = _sy(*a)
+                y[np.asarray(a[4]) < _h, ...] = 0
+                return y
+
+            o.sphoton_yeild = cut
+            want = o.run(b, alt, E, 0.3, 0.4, None)
+            o.sphoton_yeild = sy
+            if not (np.array_equal(got[0], want[0]) and np.array_equal(got[1], want[1])):
+                return {"reproduced": True, "key": "cloud top inside the shower: result differs from the model with the light below the cloud removed",
+                        "detail": f"beta={b}, altDec={alt}, cloud top {h} km: {got} vs {want}"}
+    return {"reproduced": False, "key": None, "detail": "real kernel: three regimes as stated for the probe showers"}
 
 
 def validate(seed, tier):
